@@ -411,6 +411,79 @@ func c02Check(c *core.Case, sp *c02Spec, bitsPerByte int) {
 		accepts++
 	}
 
+	// The appendix replaced through the API, the way a forwarding router does it
+	// (parse at the receiver's builder with its margins, optionally clone, set a
+	// new appendix that may be shorter, longer within the buffer, or so long
+	// that the frame moves to a bigger pooled buffer), then carried on.
+	for k, n := 0, c.Int("apx.api.n", 1, 3); k < n; k++ {
+		w2, err := c02Seal(sp, sb, p)
+		if err != nil {
+			c.Fatalf("re-seal: %v", err)
+		}
+		ps := rb.GetPooledSlice(sp.offR + len(w2) + sp.ovR)
+		copy(ps[sp.offR:], w2)
+		f, err := rb.ParseFrame(ps[sp.offR:sp.offR+len(w2)], ps, sp.offR)
+		if err != nil {
+			rb.ReturnPooledSlice(ps)
+			c.Fatalf("parse of an intact frame failed: %v", err)
+		}
+		useClone := c.Bool("apx.api.clone")
+		g := f
+		if useClone {
+			g = f.Clone()
+		}
+		room := len(ps) - sp.offR - l.apxStart
+		var newLen int
+		switch c.Weighted("apx.api.size", 2, 2, 3, 3, 1) {
+		case 0:
+			newLen = c.Int("apx.api.short", 0, max(len(sp.apx), 1))
+		case 1:
+			newLen = c.Uniform("apx.api.fit", max(room-30, 0), room)
+		case 2:
+			newLen = c.Uniform("apx.api.over", room+1, room+40)
+		case 3:
+			tier := core.OneOf(c, "apx.api.tier", 600, 1600, 9100)
+			newLen = max(tier-sp.offR-l.apxStart+c.Uniform("apx.api.tier.d", -40, 40), 0)
+		default:
+			newLen = c.Int("apx.api.any", 0, 9000)
+		}
+		newLen = min(newLen, 15000)
+		newApx := c.Bytes("apx.api.bytes", newLen)
+		serr := g.SetAppendixData(newApx)
+		what := fmt.Sprintf("replacing the %d-byte appendix by %d bytes through SetAppendixData (clone=%v, buffer %d, margins %d/%d)", len(sp.apx), newLen, useClone, len(ps), sp.offR, sp.ovR)
+		if serr != nil {
+			// A refusal is allowed; it must leave the frame as it was.
+			c.Class("appendix-api-refused")
+			newApx = sp.apx
+		} else {
+			c.Class("appendix-api-set")
+			if newLen > room {
+				c.Class("appendix-api-moved-buffer")
+			}
+		}
+		if !bytes.Equal(g.AppendixData(), newApx) && len(g.AppendixData())+len(newApx) > 0 {
+			c.Fatalf("%s: frame carries a different appendix afterwards (err=%v)", what, serr)
+		}
+		// Carry the frame on: serialise and hand it to a fresh parse + unseal.
+		out, derr := g.FrameDataWithMargins(0, 0)
+		if derr != nil {
+			c.Fatalf("%s: frame data unavailable afterwards: %v", what, derr)
+		}
+		out = append([]byte(nil), out...)
+		if useClone {
+			g.ReturnToPool()
+		}
+		f.ReturnToPool()
+		msg, perr, uerr := c02Unseal(rb, sp.offR, sp.ovR, out, p.sBA)
+		if perr != nil || uerr != nil {
+			c.Fatalf("%s invalidated the frame: parse=%v unseal=%v", what, perr, uerr)
+		}
+		if !bytes.Equal(msg, sp.payload) {
+			c.Fatalf("%s changed the delivered payload", what)
+		}
+		accepts++
+	}
+
 	crossesTier := len(wire)+sp.offS+sp.ovS > 600
 	nt := (len(sp.sw) > 0 || len(sp.apx) > 0 || crossesTier) && rejects > 0 && accepts > 0
 	c.Eval(sp.key(), nt, func() any {
